@@ -88,15 +88,30 @@ CHECKS["C18"] = dict(
     ref="DESIGN.md 4 (C18)")
 
 CHECKS["C07"] = dict(
-    text="Two parts. (A) tree shape: the real reassociate_applications/_products_and_quotients/_sums_and_differences, composed as in parse(), are executed "
+    text="Three parts. (A) tree shape: the real reassociate_applications/_products_and_quotients/_sums_and_differences, composed as in parse(), are executed "
          "symbolically (summarised, merged) on the right-nested chains of every expression with <= 4 (quick) / 5 (thorough) operands over application, * /, + - and "
          "parentheses; the operator of every link is symbolic; z3 decides slot by slot that the result is the left fold that honours every parenthesis. "
-         "(C) grammar.y itself: for every token string of length <= 6/8 over the 28 token kinds, z3 shows that no span has two derivations (encoding generated "
-         "from /repo/grammar.y on every run). One defect found by (A) was repaired (fix: 49713ec). Part B (which token strings the packrat functions accept) "
-         "is NOT claimed: symbolic execution of the 36 memoised parse functions does not reach useful lengths.",
-    note="Trusted: executor + models (validated on concrete chains against the compiled re-association), the left-fold reference, z3. The input chains are "
-         "assumed to be built as the packrat functions build them.",
+         "(B) the packrat parser itself: parser::parse (all 36 memoised parse functions, macros expanded, the HashMap cache, error recovery) is executed on symbolic "
+         "token sequences -- a token's kind is a solver variable refined only when the parser inspects it, so one path stands for a product of kinds; every "
+         "sequence of <= 3 (quick) / 5 (thorough) tokens over all 29 kinds, and <= 5 / 7 tokens over four restricted alphabets (binders, definitions, operators, "
+         "conditionals). Obligations: the packrat stage accepts exactly the sentences of /repo/grammar.y (B1, both directions, recogniser generated from the "
+         "grammar each run) and builds the tree of the unique derivation: node kinds, token spans, group flags, binders (B2). "
+         "(C) grammar.y itself: for every token string of length <= 6/8 over the 28 token kinds, z3 shows that no span has two derivations. "
+         "Defects found and repaired: by (A) fix 49713ec, by (B) fix 176659c (tokens skipped before a closing parenthesis were accepted). Counterexamples are "
+         "spelled back into source text and replayed through the compiled tokenizer and parser.",
+    note="Trusted: executor + models (validated on concrete chains and on concrete token sequences against the compiled parser), the CFG recogniser, z3. Token "
+         "sequences are restricted to those the tokenizer can emit (line-break terminator only between LAST and FIRST tokens, as C09/C10 establish).",
     ref="DESIGN.md 4 (C07)")
+CHECKS["C14"] = dict(
+    text="No-panic and faithful-failure obligations decided on symbolic inputs of every stage; each panic site of the real code (unwrap/expect, panic!, index and "
+         "slice bounds, RefCell rules, checked arithmetic) raises in the executor and becomes a reported, natively replayed violation. P: parser::parse (packrat "
+         "functions, error collection, re-association, name resolution, definition order) on every sequence of <= 4 (quick) / 5 (thorough) tokens, kinds symbolic "
+         "and refined lazily: no panic, finishes within the fuel bound, returns Ok or a non-empty error list. K: tokenize on every text of <= 3/4 symbolic "
+         "characters (C09's exploration): no panic, rejection carries an error. S: type_check on programs of <= 4 nodes and resolve_variables on trees of <= 5/6 "
+         "nodes: no panic, rejection carries an error. L: listing on symbolic text: no slice off a character boundary, no underflow.",
+    note="Trusted: executor + models, z3; panics the executor does not model (allocation failure, stack overflow) are outside. NOT covered: main.rs (file "
+         "reading, invalid UTF-8, exit status, stdout/stderr routing) is I/O and is not encoded; inputs beyond the bounds.",
+    ref="DESIGN.md 4 (C14)")
 CHECKS["C08"] = dict(
     text="Bounded symbolic verification of scoping: the real parser::resolve_variables/collect_definitions run by path forking on every syntax-tree skeleton "
          "of <= 6 (quick) / 7 (thorough) nodes over variable, lambda, pi, application, let (groups via nested lets), with every binder/occurrence/context name "
@@ -120,10 +135,11 @@ CHECKS["C15"] = dict(
          "arithmetic and string slicing (slicing off a boundary or an underflow is a reported panic). T: type_check on symbolic programs (<= 4 nodes quick, 5 "
          "thorough) whose nodes carry distinct ranges: a program rejected with one diagnostic points at the subterm the reference checker blames. S: the C08 "
          "exploration of resolve_variables with symbolic names, keeping the obligation that each unbound occurrence is reported once with that identifier's "
-         "range. U: the C09 exploration of tokenize, keeping the obligation that an unexpected symbol's range is exactly that grapheme. The defect found by L "
-         "was repaired (fix: bc229c2). Counterexamples are rendered by the compiled listing / type checker (a one-line ruler as source recovers the range).",
+         "range. U: the C09 exploration of tokenize, keeping the obligation that an unexpected symbol's range is exactly that grapheme. B: the packrat parser on "
+         "symbolic token sequences of 3-6 (quick) / 7 (thorough) tokens over the binder alphabet: every lambda/pi/let binder's range is its identifier token. "
+         "Defects found and repaired: by L fix bc229c2 (overline counted bytes), by B fix 0ee217c (implicit binder pointed at the brace). Counterexamples are rendered by the compiled listing / type checker (a one-line ruler as source recovers the range).",
     note="Trusted: executor + models (char predicates and UTF-8 widths read from compiled std and validated), the reference checker's blame site, z3. NOT covered: "
-         "the ranges computed by the packrat parser (span(..) in each parse function, including the implicit-parameter range quoted in the property); colour mode; "
+         "re-parsing a node's slice; colour mode; "
          "display width of wide/combining characters.",
     ref="DESIGN.md 4 (C15)")
 
